@@ -44,7 +44,7 @@ def layer_case(rnd, center_only=None):
   hasq = rnd.random() < 0.5
   pad = rnd.choice(["valid", "same"])
   s = rnd.choice([1, 1, 2])
-  d = rnd.choice([1, 2]) if s == 1 and not dw else 1
+  d = rnd.choice([1, 2]) if s == 1 else 1
   kh, kw_ = rnd.choice([1, 2]), rnd.choice([1, 2, 3])
   h, w = rnd.choice([3, 4]), rnd.choice([3, 4, 5])
   if pad == "valid":
@@ -58,6 +58,7 @@ def layer_case(rnd, center_only=None):
     kq = Proxy(Q.quantized_bits(8, 2, 1, alpha=1.0), "kernel", log)      # grid 2^-5
     bq = Proxy(Q.quantized_bits(8, 3, 1, alpha=1.0), "bias", log)        # grid 2^-4
   if dw:
+    kw["dilation_rate"] = (d, d)
     if hasq:
       kw.update(depthwise_quantizer=kq, bias_quantizer=bq)
     lay = QDepthwiseConv2DBatchnorm(**kw)
@@ -101,7 +102,7 @@ def layer_case(rnd, center_only=None):
     ev["y"] = ints(y[0], EX + EFK)
     # the stock pair with the same parameters
     if dw:
-      conv = L.DepthwiseConv2D((kh, kw_), strides=(s, s), padding=pad, use_bias=usebias)
+      conv = L.DepthwiseConv2D((kh, kw_), strides=(s, s), padding=pad, use_bias=usebias, dilation_rate=(d, d))
     else:
       conv = L.Conv2D(cout, (kh, kw_), strides=(s, s), padding=pad, use_bias=usebias, dilation_rate=(d, d))
     bn = L.BatchNormalization(epsilon=EPS, center=center, scale=scale)
